@@ -22,6 +22,7 @@ member; (ii) exception types outside both families (neither documented nor in th
 as ``other`` and not flagged; (iii) an intronic CDS block is not a documented constructor check and is not in the matrix;
 (iv) ``Sequence.__getitem__`` follows the sequence protocol (IndexError out of range) and is only driven in range.
 """
+from bcv.gen import c19_matrix as MX
 from bcv.gen import c19_objects as OBJ
 from bcv.monitors import c19_boundary as B
 from bcv.monitors import c19_sweep as SW
@@ -56,6 +57,10 @@ def cases(spec, ctx):
     sc = SCOPE[ctx.tier]
     import random
 
+    for idx, name in enumerate(MX.names()):
+        if idx % n == i:
+            yield {"kind": "matrix", "name": name}
+
     rng = random.Random(f"C19-objects:{ctx.seed}")
     for idx, case in enumerate(OBJ.object_cases(rng, sc["NR"])):
         if idx % n == i:
@@ -63,7 +68,53 @@ def cases(spec, ctx):
             yield case
 
 
+_MATRIX = {}
+
+
+def run_matrix(case, ctx):
+    from bcv.core import HarnessError
+
+    if not _MATRIX:
+        _MATRIX.update({e[0]: e for e in MX.build_matrix()})
+    name = case["name"]
+    if name not in _MATRIX:
+        raise HarnessError(f"unknown matrix entry {name}")
+    _, must, doc, thunk, post = _MATRIX[name]
+    ctor, arg, corr = (name.split("/") + ["", ""])[:3]
+    ctx.note(("matrix", name), klass="matrix-" + ("valid" if must is None else "legal-edge" if must == "legal" else "documented-check" if must else "undocumented-check"))
+    res, exc = ctx.call(SW.guarded, thunk)
+    if exc is not None:
+        verdict, key, info = B.classify_exception(exc)
+        if verdict == "harness":
+            if "Schema.load" not in name:
+                raise HarnessError(f"matrix entry {name}: exception without a BioCantor frame: {exc!r}")
+            verdict = "other"      # the marshmallow schema of the model class refused the record itself
+        ctx.bump("matrix-" + verdict)
+        ctx.check("ctor.exception-class", verdict not in B.FLAGGED, key=key, entry=name, verdict=verdict, exception=type(exc).__name__,
+                  message=str(exc)[:200], frame=info, expectation=doc)
+        if must is None and verdict not in B.FLAGGED:
+            raise HarnessError(f"valid baseline {name} was refused: {exc!r}")
+        if must == "legal":
+            ctx.check("edge.answered", False, key=(name, type(exc).__name__), entry=name, exception=type(exc).__name__, message=str(exc)[:200], expectation=doc)
+        elif must:
+            ctx.seen("ctor.refuses")
+        return
+    if must is True:
+        ctx.check("ctor.refuses", False, key=(name,), entry=name, returned=B.safe_repr(res), expectation=doc)
+        return
+    p = B.value_problem(res)
+    if must == "legal":
+        ok = p is None and (post is None or bool(post(res)))
+        ctx.check("edge.answered", ok, key=(name, "value"), entry=name, problem=p, returned=B.safe_repr(res), expectation=doc)
+    elif must is None:
+        ctx.check("ctor.valid-baseline", p is None, key=(name,), entry=name, problem=p, returned=B.safe_repr(res))
+    else:
+        ctx.check("ctor.nothing-ill-formed", p is None, key=(ctor, (p or "").split(" ")[0]), entry=name, problem=p, returned=B.safe_repr(res), expectation=doc)
+
+
 def run_case(case, ctx):
+    if case["kind"] == "matrix":
+        return run_matrix(case, ctx)
     if case["kind"] == "sweep":
         ps = case.get("parent") or {}
         sigbase = (case["cls"], ps.get("mode"), case.get("tag"))
